@@ -137,10 +137,21 @@ func check(c schedCase) *vlib.Failure {
 		done <- result{e: e}
 	}()
 	var res result
+	got := false
 	select {
 	case res = <-done:
+		got = true
 	case <-time.After(watchdog):
-		return vlib.Failf("deadlock", "run did not finish within %v; events: %s", watchdog, sc.Trace(60))
+		if vlib.ConfirmDeadlock(150*time.Second, func() bool {
+			select {
+			case res = <-done:
+				got = true
+			default:
+			}
+			return got
+		}) {
+			return vlib.Failf("deadlock", "run did not finish (first bound %v; then every goroutine inside the sorter stayed blocked on a channel or lock); events: %s", watchdog, sc.Trace(60))
+		}
 	}
 	// let background writers that were still held finish before the directory goes away
 	for i := 0; i < 200 && sc.Count("write-received") != sc.Count("write-return-buffer"); i++ {
